@@ -315,7 +315,8 @@ def enumerate_sweeps(ctx: Ctx, s: sched.Sched, cached: bool, max_retry, b_how: s
         w, dead, snap = world(f"{ctx.shard[0]}-e{li}-{cached}-{b_how}")
         try:
             in_hb = target[0].co_filename == HB.__file__ or target[0].co_filename.endswith("_callbacks.py")
-            r = sched.run_pair(s, target, lambda: w.sweep(0), lambda: w.sweep(1, b_how), b_wait=0.15)
+            r = sched.run_pair(s, target, lambda: w.sweep(0), lambda: w.sweep(1, b_how),
+                               b_wait=10.0 if in_hb else 0.15)   # outside the storage layer A holds no lock: B is given time to finish
             ctx.count("schedules")
             ctx.count("sweeps", 2)
             if r["hit"]:
@@ -334,7 +335,9 @@ def enumerate_sweeps(ctx: Ctx, s: sched.Sched, cached: bool, max_retry, b_how: s
             if errs and any("locked" in str(e).lower() or "StorageInternalError" in str(e) for e in errs):
                 ctx.count("schedules_with_sqlite_lock_error")
                 continue
-            judge(ctx, w, dead, snap, {"driver": "single_preemption", "storage_calls_overlapped": not in_hb, "paused_in": "heartbeat" if in_hb else "storage"}, case,
+            # (B still running when A was resumed after its 150 ms window = the two sweeps' storage calls really overlap)
+            judge(ctx, w, dead, snap, {"driver": "single_preemption", "storage_calls_overlapped": (not in_hb) or not r["b_inside_window"],
+                                       "paused_in": "heartbeat" if in_hb else "storage"}, case,
                   swept=not errs)
         finally:
             w.close()
